@@ -18,7 +18,8 @@ RULE = ("cbcheck*: hypothesis draws model parameters + an integer seed; refs/cbm
         "joints K_e = B^T k_e B, B = [-R_ij, I], k_e SPD with eigenvalue spread 3..300, lumped 6x6 masses "
         "with SPD inertia and optional CG offsets, stiffness scaled so that the FIRST ELASTIC FREE-FREE "
         "FREQUENCY IS 1..50 Hz), reduces it (own constraint modes, scipy eigh fixed-interface modes, "
-        "1..all retained) for 1..3 boundary grids in basic / cylindrical / spherical output systems, and "
+        "1..all retained) for 1..3 boundary grids in basic / cylindrical / spherical output systems (optionally "
+        "turned so that a boundary grid sits exactly at azimuth 0 / 90 / 180 / 270 degrees), and "
         "embeds Mcb/Kcb in a b-first, b-last or interleaved DOF layout.  The USET table comes from "
         "n2p.addgrid (cross-checked against the reference geometry) in matrix order, optionally with "
         "extra non-b grids; bseto = identity or a swap of two boundary grids; bref = one grid or a "
@@ -107,7 +108,9 @@ def _inv_conv(conv):
 
 # ---------------------------------------------------------------- model from a case
 
-def _systems(case, length):
+def _systems(case, length, pins=None):
+    """pins: {system index k: point}: with case['cardinal'] = angle (degrees) the x axis of system k is turned so
+    that the point sits exactly at that azimuth (structured interfaces: bolts at 0/90/180/270 degrees)"""
     rng = util.rng_of(case["seed"] + 7919)
     systems = {0: cs.BASIC}
     cards = {}
@@ -120,6 +123,13 @@ def _systems(case, length):
             if np.linalg.norm(np.cross(z, v)) >= 0.3:
                 break
             v = cs.unit(rng.standard_normal(3))
+        if pins and k in pins and case.get("cardinal") is not None:
+            d = np.asarray(pins[k], float) - A
+            er = d - (d @ z) * z
+            if np.linalg.norm(er) > 0.05 * length:
+                er = cs.unit(er)
+                a = math.radians(float(case["cardinal"]))
+                v = math.cos(a) * er - math.sin(a) * np.cross(z, er)
         B = A + z * length * rng.uniform(0.5, 2.0)
         C = A + v * length * rng.uniform(0.5, 2.0)
         systems[cid] = cs.define(cid, t, cs.BASIC, A, B, C)
@@ -132,7 +142,12 @@ def make_model(case):
     S = cm.build(case["seed"], case["ngrids"], case["nextra"], case["length"], case["kspread"],
                  case["offsets"], case["f1"])
     mat = [int(g) for g in case["bgrids"]]
-    systems, cards = _systems(case, case["length"])
+    pins = {}
+    for j, g in enumerate(mat):
+        c = case.get("cout", [0] * len(mat))[j]
+        if c > 0 and (c - 1) not in pins:
+            pins[c - 1] = S.xyz[g]
+    systems, cards = _systems(case, case["length"], pins)
     frames = [np.eye(3)] * S.n
     couts = []
     for j, g in enumerate(mat):
@@ -679,6 +694,8 @@ def cb_cases(draw, variant="valid"):
                 nff=draw(st.sampled_from([25, 25, 25, 40, 100])), em_filt=draw(st.sampled_from([0, 0, 2.0])),
                 to_file=draw(st.integers(0, 5)) == 0, uset_extra=draw(st.booleans()),
                 bmass_small=False)
+    if systems:
+        case["cardinal"] = draw(st.sampled_from([None, None, 0.0, 90.0, 180.0, 270.0, 180.0]))
     if case["conv"] == "pair":
         case["conv"] = draw(st.sampled_from([[1000.0, 0.001], [0.001, 1000.0], [1 / 25.4, 0.005710147154735817],
                                              [3.0, 2.0], [0.3, 0.5], [0.001, 0.001], [1 / 25.4, 2.0],
